@@ -12,8 +12,14 @@ pub mod m5 {
 pub mod m6 {
     average::define_moments!(M6, 6);
 }
+pub mod m7 {
+    average::define_moments!(M7, 7);
+}
 pub mod m8 {
     average::define_moments!(M8, 8);
+}
+pub mod m9 {
+    average::define_moments!(M9, 9);
 }
 pub mod m10 {
     average::define_moments!(M10, 10);
@@ -22,7 +28,9 @@ pub use m10::M10;
 pub use m4::M4;
 pub use m5::M5;
 pub use m6::M6;
+pub use m7::M7;
 pub use m8::M8;
+pub use m9::M9;
 
 average::define_histogram!(hist1, 1);
 average::define_histogram!(hist2, 2);
